@@ -604,6 +604,17 @@ for _p in ('C12', 'C14', 'C10'):
 PROPS['C12']['trusted'] = PROPS['C12']['trusted'] + ['Verus unit addsignal_verus: stand-ins for Handle / DeliveryState / the id-table mutex and its guard (length 128, poison ignored by `unwrap_or_else(PoisonError::into_inner)`) / Arc / the two trait objects; assumed trace contract of <Arc<PendingSignals<E>>>::add_signal (real body under Kani contract); rewrites A0-A1; signals outside 0..128 are not covered by this unit (documented panics, decided natively)']
 PROPS['C12']['technique'] = 'requires/ensures contract of the real Handle::add_signal on its mechanically extracted text for every table state (Verus/Z3) + checks-before-effects / clean-up trace contracts on the real backend.rs (Kani/CBMC, table of 4 or one signal of 128) + native executions for the post-panic scenarios'
 
+# Engine V on the real HalfLock::write_barrier (extracted mechanically on every run, see lib/verus_barrier.py): unbounded waiting
+UNITS['barrier_verus'] = dict(name='barrier_verus', engine='verus', module='verus_barrier', entry='run_barrier', min_verified=3, rlimit=30,
+    obligations=['C01.V-BARRIER-ZERO', 'C18.V-FLIP-ONCE', 'C18.V-BARRIER-NO-PANIC'])
+FB = 'half_lock.rs: HalfLock::write_barrier (extracted text, Verus, any number of waiting passes / any answers of the reader counters): '
+obl('C01.V-BARRIER-ZERO', FB + 'ensures + loop invariant', 'the barrier returns only after EACH of the two reader slots was observed at zero by a load made during this barrier - for an unbounded number of passes in which readers keep a slot non-zero (the Kani run bounds them to 3)', also=['C18'])
+obl('C18.V-FLIP-ONCE', FB + 'ensures + loop invariant', 'the generation is advanced exactly once per barrier, SeqCst, by an odd amount, after at most the initial sampling pass and never inside the waiting loop', also=['C01'])
+obl('C18.V-BARRIER-NO-PANIC', FB + 'verifier-generated checks', 'no arithmetic / index check on a line of the real function fails (`iter % YIELD_EVERY` with the extracted constant, wrapping counter)')
+for _p in ('C01', 'C18'):
+    PROPS[_p]['units'] = PROPS[_p]['units'] + ['barrier_verus']
+    PROPS[_p]['trusted'] = PROPS[_p]['trusted'] + ['Verus unit barrier_verus: assumed contracts of update_seen (proved complete on the real body by Kani: C18.STICKY, C01.U-STEP), of the generation fetch_add, and of `Iterator::all` on the 2-element array (`verif_all`, rewrite W3: std semantics the installed Verus does not specify); stand-ins for HalfLock / AtomicUsize / yield / spin; termination of the waiting loop not verified (needs readers to leave: fairness)']
+
 # quick tier must stay well under 900 s per check (vp check): the slowest bounded cross-check harnesses run in the thorough
 # tier only for the properties whose unbounded Verus obligations supersede them
 PROPS['C05']['quick_drop'] = ['c04_op_register_vacant', 'c05_op_register_occupied_small', 'c02_hist_order', 'c05_hist_reregister']
